@@ -122,7 +122,9 @@ func (w *world) chainByName(name string) *xchain {
 	return nil
 }
 
-var nameAlphabet = []string{"chain-a", "teleport", "bsc.main", "eth_1", "a+b", "x#1", "[c]", "<d>", "qqq", "AbC", "rinkeby-4", "z-0.9_+"}
+var nameAlphabet = []string{"chain-a", "teleport", "bsc.main", "eth_1", "a+b", "x#1", "[c]", "<d>", "qqq", "AbC", "rinkeby-4", "z-0.9_+",
+	// words that also occur as segments of store paths
+	"sequences", "commitments", "acks", "receipts", "relayer", "clients", "consensusStates", "nextSequenceSend"}
 
 func chainName(cfg map[string]int64, i int) string {
 	if cfg["weird_names"] == 0 {
